@@ -126,6 +126,15 @@ def annAnswer (out : SearchOut) (q : List Int) (keys : List String) : String :=
     s!"ann m=cosine A={normSq q} cut={k} k={k} n={snap.length} | {showCands (postProcessAnn snap (annWithTrueScores snap q ids) k)}"
   | other => "noindex " ++ showOut q other
 
+/-- the same for a post-filtered search: the harness names the nodes the real index returned for
+    the inner `search_similar(query, oversample_k)` -/
+def annAnswerF (out : SearchOut) (cur : Items) (q : List Int) (f : Filter) (keys : List String) : String :=
+  match out with
+  | .viaIndex snap _ cut k =>
+    let ids := keys.filterMap fun key => snap.findIdx? (fun e => e.1 == key)
+    s!"ann m=cosine A={normSq q} cut={cut} k={k} n={snap.length} | {showCands (postFilterCands snap cur (annWithTrueScores snap q ids) cut f)}"
+  | other => "noindex " ++ showOut q other
+
 def vecStep (d : DState) (line : String) : DState × String :=
   let bad := (d, "bad-op")
   let doOp (op : Op) : DState × String :=
@@ -201,6 +210,11 @@ def vecStep (d : DState) (line : String) : DState × String :=
   | ["searchf", q, k, strat, os, f] =>
       match parseInts q, k.toNat?, parseStrategy strat, os.toNat?, parseFilter f with
       | some q, some k, some s, some os, some f => (d, showOut q (searchFiltered d.st q k f s os))
+      | _, _, _, _, _ => bad
+  | ["searchf_ann", q, k, strat, os, f, ids] =>
+      match parseInts q, k.toNat?, parseStrategy strat, os.toNat?, parseFilter f with
+      | some q, some k, some s, some os, some f =>
+        (d, annAnswerF (searchFiltered d.st q k f s os) d.st.dflt.items q f (parseKeys ids))
       | _, _, _, _, _ => bad
   | ["csearch", c, q, k] => match parseInts q, k.toNat? with
       | some q, some k => (d, showOut q (searchColl d.st c q k)) | _, _ => bad
